@@ -11,9 +11,27 @@ CHECKS = {
          'signed-or-unsigned field range', '6 C12',
          'widths enumerated; values symbolic; trusted: z3, proxy semantics'),
 }
+CHECKS.update({
+ 'C02': ('PIPE: whole real two-pass assembler on program skeletons with symbolic origin/.org/.align/fill operands; z3 decides '
+         'every line address, reserved size, emitted bytes and label value against a reference layout for all values', '6 C02',
+         'skeletons enumerated (hand-written + seeded random, <= 12 statements); white-box read of line objects after assembly; trusted: z3, proxies, reference layout model'),
+ 'C03': ('PIPE: whole real assembler incl. the image loop with symbolic window start/end/fill and data bytes; z3 decides image == '
+         'window onto reference memory map for all window values', '6 C03',
+         'line placement concrete within 0..24 (symbolic in one family), window values symbolic; trusted: z3, proxies, reference memory map'),
+ 'C04': ('PIPE: k<=4 byte-producing lines each placed by a symbolic .org; z3 decides rejected <=> some pair of address ranges '
+         'intersects, over every relative order (real sort + overlap scan run on proxies)', '6 C04',
+         'line kinds and source orders enumerated; addresses 0..40 symbolic; zero-length lines occupy nothing'),
+ 'C05': ('UNIT on MemoryZone/MemoryZoneManager with symbolic bounds at 6 address widths + PIPE zone layouts with symbolic zone '
+         'bounds, origins, fill lengths; z3 decides accepted => every byte inside zone and GLOBAL, rejected => justified, '
+         'addresses as if stretches were concatenated', '6 C05',
+         'zone layouts enumerated; bounds symbolic; cursor may rest one past the zone end'),
+ 'C11': ('PIPE: whole real assembler on data/fill directive shapes with symbolic listed values, counts, targets, terminator; z3 '
+         'decides image == described bytes for all values', '6 C11',
+         'directive x width x endianness x list length enumerated; strings from a fixed catalogue (characters not symbolic)'),
+})
 NA = {
 }
-PENDING = ['C02','C03','C04','C05','C06','C07','C08','C10','C11','C13','C14','C16','C17','C19','C20']
+PENDING = ['C06','C07','C08','C10','C13','C14','C16','C17','C19','C20']
 NA_FIXED = {
  'C09': 'quantifier is over names/line text handled by re.findall + str.replace on concrete strings; Python re cannot run on symbolic strings and an SMT-string re-model would not be the real code (DESIGN 7)',
  'C15': 'variation enters through interpreter hash randomisation and the OS environment - process parameters, not inputs of any function the symbolic executor can run (DESIGN 7)',
